@@ -436,7 +436,7 @@ def main(argv=None):
             if first is None:
                 first = path
             print("  violation[%s]: %s" % (v.get("mech") or "-", v.get("msg")))
-        print("  (%d violating observations in total)" % new_count)
+        print("  (%d violating observations in total; by mechanism: %s)" % (new_count, {k or "-": n for k, n in agg["viol_by_mech"].items() if k not in known}))
         print("VIOLATION property=%s replay=%s" % (prop, first))
         return 1
     if agg["inconclusive"]:
